@@ -688,6 +688,19 @@ func (m *Machine) builtinExternal(fn *ssa.Function, args []Value) (Value, bool) 
 		"(*sync.RWMutex).RLock", "(*sync.RWMutex).RUnlock", "(*sync.WaitGroup).Add", "(*sync.WaitGroup).Done", "(*sync.WaitGroup).Wait":
 		// single abstract thread: locks are no-ops for the value semantics analysed here
 		return nil, true
+	case "(*sync.Once).Do":
+		// the function runs on the first Do of this Once object on the path, never again
+		if p, ok := args[0].(PtrV); ok && p.C != nil {
+			if m.onceDone == nil {
+				m.onceDone = map[*Cell]bool{}
+			}
+			if m.onceDone[p.C] {
+				return nil, true
+			}
+			m.onceDone[p.C] = true
+		}
+		m.CallValue(args[1], nil)
+		return nil, true
 	case "gonum.org/v1/gonum/floats.Sum", "gonum.org/v1/gonum/floats.SumCompensated":
 		// the sum of the elements (compensation changes rounding only)
 		if sl, ok := args[0].(SliceV); ok {
